@@ -85,6 +85,37 @@ theorem no_creation_while_paused (sp : Spec) (w : World) (ev : Event)
                       · simp [ids, setTask_ids]
                     · simp [ids, setTask_ids]
 
+/-- "… while results of running actions are still recorded": the result of an action that
+    arrives while the workflow is PAUSED completes its task (state from the result), although
+    no follow-up task is created until resume. -/
+theorem results_recorded_while_paused (sp : Spec) (w : World) (t : Tid) (ok : Bool) (r : TaskRow)
+    (hp : w.wf = .PAUSED) (hr : findTask w t = some r) (hrun : isCompleted r.state = false)
+    (hpend : w.pending.contains (.rpcResult t ok) = true) :
+    ∃ r', findTask (step sp w (.deliver (.rpcResult t ok))) t = some r' ∧
+      r'.state = (if ok then St.SUCCESS else St.ERROR) ∧ r'.processed = r.processed := by
+  have hid : r.name = t.1 ∧ r.occ = t.2 := by
+    unfold findTask at hr
+    have := List.find?_some hr
+    simpa using this
+  simp only [step, hpend, Bool.not_true, Bool.false_eq_true, if_false]
+  have hr' : findTask { w with pending := removeFirst w.pending (.rpcResult t ok) } t = some r := hr
+  simp only [hr']
+  unfold completeTask
+  simp only [hrun, Bool.false_eq_true, if_false]
+  have hpz : isPaused w.wf = true := by rw [hp]; decide
+  simp only [hpz, if_true]
+  let st : St := if ok then St.SUCCESS else St.ERROR
+  let nt : List (String × String) := if isCompleted w.wf then [] else nextOf sp r.name st
+  let r1 : TaskRow :=
+    { r with state := st, nextTasks := nt, hasNext := !nt.isEmpty,
+             errorHandled := if st == .ERROR then nt.any (·.2 == "on-error") else r.errorHandled }
+  refine ⟨r1, ?_, rfl, rfl⟩
+  unfold findTask
+  rw [(checkAffected_tasks sp _ _).1]
+  have := find_setTask w.tasks r r1 rfl rfl (by unfold findTask at hr; rw [hid.1, hid.2]; exact hr)
+  rw [hid.1, hid.2] at this
+  exact this
+
 /-- While PAUSED, only `resume` and `stop` change the workflow state. -/
 theorem paused_stays_paused (sp : Spec) (w : World) (ev : Event) (hp : w.wf = .PAUSED)
     (h1 : ev ≠ .resume) (h2 : ∀ t, ev ≠ .stop t) : (step sp w ev).wf = .PAUSED := by
